@@ -7,7 +7,7 @@ import copy, hashlib, json, random
 import vlib
 
 PROG = "uconn"
-VIOLATION_KINDS = {"WireIsRaw", "EditsVisible", "RawIsLastSent", "norm"}
+VIOLATION_KINDS = {"WireIsRaw", "EditsVisible", "RawIsLastSent", "norm", "RebuildMustFail"}
 VIOLATION_ORDER = {"hello-written-without-rebuild", "hello-written-unasked"}
 MUTATORS = ["SetClientRandom", "SetSNI", "RemoveSNI", "EditSuites", "EditSessionId", "ExtInsert", "ExtRemove", "ExtALPN", "ExtSNIField"]
 CLAIMS = ["random", "sid", "suites", "sni", "nosni", "ext", "noext", "front"]
@@ -65,7 +65,7 @@ def forward(e):
         return {k: v for k, v in e.items() if k not in ("random", "hex")}
     if ev == "Done":
         return {k: e[k] for k in ("ev", "sc", "cok", "sok", "cerr", "sha", "n")}
-    if ev in ("Rec", "Rebuilt", "AtSend"):
+    if ev in ("Rec", "Rebuilt", "AtSend", "New"):
         return {k: v for k, v in e.items() if k != "hex"}
     return e
 
@@ -181,6 +181,42 @@ def canary(ctx, good):
     return None
 
 
+def canary_refused(ctx, good):
+    """good: an accepted scenario whose hello was made unbuildable after an explicit build (Handshake refused)."""
+    def variant(sc, f):
+        g = copy.deepcopy(good)
+        for e in g:
+            e["sc"] = sc
+        f(g)
+        return g
+
+    def success(g):
+        g[-1]["cok"], g[-1]["cerr"] = True, ""
+
+    def raw_changed(g):
+        g[-1]["sha"] = hashlib.sha256(b"another hello").hexdigest()
+
+    vs = [("good", lambda g: None, None), ("refusal-forged-to-success", success, ("RebuildMustFail", "success-reported")),
+          ("raw-changed", raw_changed, ("RebuildMustFail", "raw-changed-by-failed-rebuild"))]
+    rows = []
+    for i, (tag, f, _) in enumerate(vs):
+        rows += [forward(e) for e in variant(910000 + i, f)]
+    rej, _ = validate(ctx, rows, "canary_refused", count=False)
+    for i, (tag, _, want) in enumerate(vs):
+        got = [(r[1], r[2]) for r in rej if r[0] == 910000 + i]
+        if want is None:
+            if got:
+                return "good refused trace rejected: %r" % got
+        elif want not in got:
+            raise vlib.Machinery("binding canary %s: expected a %s rejection, got %r" % (tag, want, got))
+    return None
+
+
+def is_refused_material(s, g):
+    return (s["cls"] in ("parrot", "shuffle") and s["mode"] == "before" and any(o["op"] == "Break" for o in s["ops"])
+            and g[-1]["ev"] == "Done" and not g[-1]["cok"] and not any(e["ev"] in ("Rebuilt", "Rec") for e in g))
+
+
 def is_canary_material(s, g):
     d = g[-1]
     return (s["cls"] in ("parrot", "shuffle") and s["mode"] == "before" and any(o["op"] == "SetClientRandom" for o in s["ops"])
@@ -218,13 +254,17 @@ def run(ctx):
         return []
     # SNI configuration: SetSNI over every argument class (other name, same name, IPv4 / IPv6 literals, "", trailing dot,
     # 253 bytes), the direct edit of SNIExtension.ServerName, RemoveSNIExtension; sequences of length <= 2
+    # "brk" configuration: edits that make the hello unbuildable (+ SetClientRandom, ExtInsert), PSK parrots without
+    # OmitEmptyPsk: Handshake must return the build error and write nothing
+    brk = lambda: gen_paths(ctx, "UConnBuild_MC_brk", 2, 900)[0]
     sni = lambda: gen_paths(ctx, "UConnBuild_MC_sni" if ctx.quick else "UConnBuild_MC_sni_full", 4, 1500)[0]
     if ctx.quick:
-        jobs = [mc_asis, lambda: gen_paths(ctx, "UConnBuild_MC", 9, 1500)[0], lambda: gen_paths(ctx, "UConnBuild_MC_nosess", 2, 600)[0], sni]
+        jobs = [mc_asis, lambda: gen_paths(ctx, "UConnBuild_MC", 9, 1500)[0], lambda: gen_paths(ctx, "UConnBuild_MC_nosess", 2, 600)[0], sni, brk]
     else:
-        jobs = [mc_asis, lambda: gen_paths(ctx, "UConnBuild_MC_deep", 10, 3000)[0], lambda: gen_paths(ctx, "UConnBuild_MC_alt", 3, 1500)[0], sni]
-    with cf.ThreadPoolExecutor(max_workers=4) as ex:
-        _, paths, deep_paths, sni_paths = [f.result() for f in [ex.submit(j) for j in jobs]]
+        jobs = [mc_asis, lambda: gen_paths(ctx, "UConnBuild_MC_deep", 10, 3000)[0], lambda: gen_paths(ctx, "UConnBuild_MC_alt", 3, 1500)[0], sni, brk]
+    with cf.ThreadPoolExecutor(max_workers=5) as ex:
+        _, paths, deep_paths, sni_paths, brk_paths = [f.result() for f in [ex.submit(j) for j in jobs]]
+    reps["pskstrict"], by["pskstrict"] = reps["psk"], by["psk"]
     if ctx.quick:
         sni_paths = [p for p in sni_paths if p["mode"] != "both" and
                      (p["server"] == "plain" or (p["server"] == "hrr" and p["mode"] == "before" and nmut(p) <= 1))]
@@ -235,11 +275,11 @@ def run(ctx):
         s["id"] = i
         s["sc"] = len(scns)
         scns.append(s)
-    for p in paths + deep_paths + sni_paths:
+    for p in paths + deep_paths + sni_paths + brk_paths:
         for i in reps[p["cls"]]:
             add(p, i)
     if not ctx.quick:
-        for p in sni_paths:
+        for p in sni_paths + brk_paths:
             if p["server"] == "plain":
                 for i in by[p["cls"]]:
                     if i not in reps[p["cls"]]:
@@ -258,23 +298,26 @@ def run(ctx):
     per = max(200, -(-len(scns) // (par * waves)))        # equal chunks, a whole number of waves
     chunks = [scns[i:i + per] for i in range(0, len(scns), per)]
     ctx.build(prog=PROG)
-    totals, rejs, samples, material, outcome = {}, [], [], [], {}
+    totals, rejs, samples, material, material2, outcome = {}, [], [], [], [], {}
 
     def one(k):
         gs, rej, st = replay_and_validate(ctx, chunks[k], "c%d" % k)
         mat = next((s for s, g in zip(chunks[k], gs) if is_canary_material(s, g)), None)
+        mat2 = next((g for s, g in zip(chunks[k], gs) if is_refused_material(s, g)), None)
         res = {}
         for g in gs:
             res[g[0]["sc"]] = {"cerr": g[-1].get("cerr", ""), "cok": g[-1].get("cok", False), "hrr_group": g[0].get("hrr_group", 0)}
-        return rej, st, mat, res, (gs[0] if k == 0 else None)
+        return rej, st, mat, res, mat2
 
     with cf.ThreadPoolExecutor(max_workers=par) as ex:
-        for rej, st, mat, res, first in ex.map(one, range(len(chunks))):
+        for rej, st, mat, res, mat2 in ex.map(one, range(len(chunks))):
             rejs += rej
             for k, v in st.items():
                 totals[k] = totals.get(k, 0) + v
             if mat is not None and len(material) < 1:
                 material.append(mat)
+            if mat2 is not None and len(material2) < 1:
+                material2.append(mat2)
             outcome.update(res)
     ctx.traces += len(scns)
     lap("replay and validation done")
@@ -307,7 +350,7 @@ def run(ctx):
             ctx.findings.append(dict(ctx.findings[-1]))
 
     # ---- honesty: vacuity and canary (after the findings: a broken tree must not end as a machinery error)
-    need = MUTATORS + CLAIMS + ["Build", "BuildNoSess", "ApplyPreset", "rebuilt", "ch1", "ch2", "hrr", "hrr_cookie", "done", "done_hrr", "seeded", "psk", "sni_literal"]
+    need = MUTATORS + CLAIMS + ["Build", "BuildNoSess", "ApplyPreset", "rebuilt", "ch1", "ch2", "hrr", "hrr_cookie", "done", "done_hrr", "seeded", "psk", "sni_literal", "Break", "refused", "unbuildable", "build_failed"]
     missing = [k for k in need if totals.get(k, 0) == 0]
     if missing and not ctx.findings:
         raise vlib.Machinery("vacuous: never exercised / never judged: %r (statistics %r)" % (missing, totals))
@@ -316,6 +359,8 @@ def run(ctx):
         # the same scenario once more, every byte string logged in full: the canary corrupts recorded bytes
         _, gs = replay(ctx, [dict(material[0], sc=0)], "canary_material", True)
         why = canary(ctx, gs[0]) if is_canary_material(material[0], gs[0]) else "the canary scenario did not complete again"
+    if not why:
+        why = canary_refused(ctx, material2[0]) if material2 else "no accepted scenario with a refused handshake is available"
     if why and not ctx.findings:
         raise vlib.Machinery("binding canary: " + why)
     if totals.get("rebuilt", 0) != len(scns) and not ctx.findings:
@@ -337,7 +382,8 @@ def run(ctx):
                    "UConn of a ClientHelloID of that class and judged by TLC; non-trivial = the replay put a ClientHello on the wire, so "
                    "that WireIsRaw and EditsVisible were evaluated on recorded bytes (paths are distinct by construction; the rest failed before sending)"
                    % (3 if ctx.quick else 4),
-           "paths_from_model": len(paths) + len(deep_paths) + len(sni_paths),
+           "paths_from_model": len(paths) + len(deep_paths) + len(sni_paths) + len(brk_paths),
+           "unbuildable_hellos": {k: totals.get(k, 0) for k in ("Break", "refused", "unbuildable", "build_failed", "build_err_unexplained")},
            "sni_claims_of_a_literal_or_empty_name_judged": totals.get("sni_literal", 0), "ids": sorted({s["id"] for s in scns}), "n_ids": len({s["id"] for s in scns}),
            "claims_judged_by_kind": {k: totals.get(k, 0) for k in CLAIMS},
            "calls_by_kind": {k: totals.get(k, 0) for k in MUTATORS + ["Build", "BuildNoSess", "ApplyPreset"]},
@@ -369,6 +415,9 @@ def explain(kind, detail):
                 else "a ClientHello record differs from what Hello.Raw held when it was written")
     if kind == "RawIsLastSent":
         return "after Handshake, Hello.Raw is not the last ClientHello sent (%s)" % detail
+    if kind == "RebuildMustFail":
+        return ("the hello cannot be marshalled any more (an edit after the build, or an empty PSK without OmitEmptyPsk): the build / "
+                "Handshake has to return that error, write no ClientHello and leave Hello.Raw alone, but: " + detail)
     if kind == "norm":
         return "hostnameInSNI does not just drop the trailing dots of a host name"
     return "a ClientHello record was written that no step of the life-cycle explains (%s)" % detail
